@@ -216,6 +216,7 @@ def run(ctx):
         "checker_cmd": "tlc ServerConfig.tla (ServerConfig_mc.cfg) / ServerConfigGen.tla + go test -run TestVerifX03Replay "
                        "./internal/server/ + go test -run TestVerifX03Main ./cmd/ck-server/",
     }
+    ctx.notes.append("%d kinds of observation on undocumented inputs (not judged), see coverage.observations" % len(cov["observations"]))
     return lib.finish(ctx, LEVEL, cov, ASSUME)
 
 
